@@ -36,6 +36,11 @@ def _tokdesc(tok):
     kind, text = tok[0], tok[1]
     if kind in ("tag", "identifier"):
         return text.decode("ascii").lower()
+    if kind == "multiline":
+        if SEP == b"\r\n" or b"\r" in text:
+            return "multiline-crlf"
+        if b"$" in text:
+            return "multiline-dollar"
     return kind
 
 
@@ -75,6 +80,8 @@ def judge(mode, out, parser, rendered, ntoks_total, all_read):
     if mode == "c18":
         return judge18(out, parser, rendered, toks, lexerr)
     if lexerr is not None:
+        if out is True and mode in ("c03", "c04"):
+            raise Skip("accepted although the reference lexer rejects: C01's matter")
         if out is True:
             raise Violation("C01/accepts-invalid/LEXICAL/%s" % lexerr.why.split(" at ")[0],
                             {"script": _txt(rendered)})
@@ -82,6 +89,12 @@ def judge(mode, out, parser, rendered, ntoks_total, all_read):
     res = ref_sieve.check(toks)
     if res.taints:
         raise Skip("outside the claim: " + ",".join(res.taints))
+    if mode in ("c03", "c04"):
+        # these properties speak about accepted scripts only; whether the verdict itself is right is C01's matter
+        if out is not True:
+            return "rejected"
+        if res.status != "accept":
+            raise Skip("accepted although the reference rejects: C01's matter")
     if out is True:
         if res.status == "reject":
             raise Violation("C01/accepts-invalid/%s/%s" % (res.reason, res.cmd),
@@ -117,7 +130,9 @@ def judge(mode, out, parser, rendered, ntoks_total, all_read):
     if v2 is True:
         return "rejected-undemonstrated"
     last = toks[-1] if toks else ("", b"")
-    raise Violation("C01/rejects-valid/%s/%s" % (res.open_cmd, _tokdesc(last)),
+    desc = _tokdesc(last)
+    sig = "C01/rejects-valid/%s" % desc if desc.startswith("multiline-") else "C01/rejects-valid/%s/%s" % (res.open_cmd, desc)
+    raise Violation(sig,
                     {"script": _txt(full), "error": getattr(p2, "error", repr(v2))})
 
 
